@@ -166,6 +166,7 @@ impl Property for C05 {
                 });
             }
             // every redo-ifchange process that named a cone target fails
+            let mut nested_ok: Vec<String> = Vec::new();
             for e in &g.events {
                 if let EvKind::Op(Class::Proc) = e.kind {
                     if let Some(rest) = e.text.strip_prefix("exec redo-ifchange ") {
@@ -188,6 +189,16 @@ impl Property for C05 {
                             .filter_map(|a| arg_path(&cwd, a))
                             .collect();
                         let bad: Vec<&String> = named.iter().filter(|t| in_cone(world, t)).collect();
+                        if keep_going {
+                            // --keep-going holds for the redo-ifchange calls of the
+                            // scripts as well: what they name outside the failure
+                            // cone is still built
+                            for t in named.iter().filter(|t| !in_cone(world, t)) {
+                                if !nested_ok.contains(t) {
+                                    nested_ok.push(t.clone());
+                                }
+                            }
+                        }
                         if !bad.is_empty() && p.status == Some(0) {
                             v.push(Violation {
                                 kind: "failure-not-propagated".into(),
@@ -255,7 +266,12 @@ impl Property for C05 {
             }
             // -k: everything requested outside the cone is built
             if keep_going && st != Some(0) {
-                let ok: Vec<String> = req.iter().filter(|t| !in_cone(world, t)).cloned().collect();
+                let mut ok: Vec<String> = req.iter().filter(|t| !in_cone(world, t)).cloned().collect();
+                for t in nested_ok {
+                    if !ok.contains(&t) {
+                        ok.push(t);
+                    }
+                }
                 let mut f = freshness(rec, g.step_idx, &ok);
                 for x in f.iter_mut() {
                     x.kind = "keep-going-skipped".into();
